@@ -85,7 +85,9 @@ static void c02_run(vf_case *c)
         else if (info < 0 || info > n) vf_viol(c, "info-unexpected", "gstrf returned info=%lld on a valid call (n=%d, library allocation)", (long long)info, n);
         /* refactorizations through the factor routine itself (square and tall): same pattern, new values; ordering + row pivots + storage reused
            (remembered pivots kept, or abandoned when they fail the threshold test), or ordering reused only */
-        for (int step = 0; step < 2 && info == 0 && R.have_LU && n >= 2 && rng_bool(r, step ? 0.4 : 0.45); step++) {
+        /* only for thresholds u >= 1e-3: a remembered pivot is kept whenever it passes u*max, so with u = 0 (outside the property's quantifier) or a
+           tiny u unrelated new values give unbounded growth by design (single precision overflows within a few columns) */
+        for (int step = 0; step < 2 && info == 0 && R.have_LU && n >= 2 && opt.DiagPivotThresh >= 1e-3 && rng_bool(r, step ? 0.4 : 0.45); step++) {
             int kind = rng_int(r, 0, 3); fact_t mode = rng_bool(r, 0.8) ? SamePattern_SameRowPerm : SamePattern;
             vf_mat A2; mat_revalue(r, P, &A, kind, R.perm_r, R.perm_c, &A2);
             int *pr_in = malloc(sizeof(int) * (size_t)(m + 1)); memcpy(pr_in, R.perm_r, sizeof(int) * (size_t)m);
